@@ -3,7 +3,7 @@
    received (after the seven fix: commits in fbb/ and the three in lzhuf/).  Every index and
    slice expression of the Go code on remote-controlled data is a checked operation in the
    model that yields XPanic when out of range. *)
-From Verif Require Import Base.Bytes B2F.Secure B2F.Side B2F.SideP.
+From Verif Require Import B2F.TermP Base.Bytes B2F.Secure B2F.Side B2F.SideP.
 Open Scope N_scope.
 
 (* For EVERY configuration (role, MOTD, handler with any outbox, answer policy and failing
@@ -12,16 +12,29 @@ Theorem C03_no_panic : forall cfg input, x_res (exchange cfg input) <> XPanic.
 Proof. exact exchange_nopanic. Qed.
 Print Assumptions C03_no_panic.
 
-(* FULL STATEMENTS (not asserted): the fuel that Exchange is given -- linear in the input and
-   the outbox -- always suffices (no spinning), and the result is one of nil / ErrConnLost /
-   error with the connection closed.  Decided per run by the correspondence check: real
-   sessions under a watchdog, an address-space limit and an allocation bound on mutated
-   transcripts, damaged payloads and arbitrary bytes, compared with this model. *)
-Definition C03_terminates_statement : Prop :=
-  forall cfg input, x_res (exchange cfg input) <> XOutOfFuel.
-Definition C03_result_statement : Prop :=
-  forall cfg input, x_res (exchange cfg input) = XNil \/ x_res (exchange cfg input) = XConnLost
-                    \/ x_res (exchange cfg input) = XOther \/ x_res (exchange cfg input) = XUnknown.
+(* The session loop ends: the fuel Exchange is given in the model -- linear in the input and
+   the outbox -- always suffices, because every inbound turn consumes at least one line of the
+   input and no step ever lengthens what is left to read (B2F/TermP.v).  So for EVERY
+   configuration and EVERY received byte sequence the model returns ... *)
+Theorem C03_terminates : forall cfg input, x_res (exchange cfg input) <> XOutOfFuel.
+Proof. exact exchange_terminates. Qed.
+Print Assumptions C03_terminates.
+
+(* ... and with the result one of: nil, connection lost, another error -- or "unknown" when a
+   received message carries a date outside the modelled layouts (the harness skips those). *)
+Theorem C03_result : forall cfg input,
+  x_res (exchange cfg input) = XNil \/ x_res (exchange cfg input) = XConnLost
+  \/ x_res (exchange cfg input) = XOther \/ x_res (exchange cfg input) = XUnknown.
+Proof.
+  intros cfg input. pose proof (exchange_nopanic cfg input) as Hp. pose proof (exchange_terminates cfg input) as Ht.
+  destruct (x_res (exchange cfg input)); auto; congruence.
+Qed.
+Print Assumptions C03_result.
+
+(* What this does NOT cover: the LZHUF reader inside Proposal.Message has its own bound in the
+   model (at most 8*len+2 Read calls); a decoder that stopped making progress would show up
+   there as an error, not as fuel exhaustion of the session.  That the real decoder always makes
+   progress is C08's termination statement (decided per run under a watchdog). *)
 
 (* Regression witnesses on the model of the repaired panics: a NUL line, "F>" without a
    checksum field, ";PQ" without a challenge: all end in an error, none in XPanic. *)
